@@ -3,7 +3,7 @@
    [mget M i j] is entry (i, j), [sumR (map f (seq 0 n))] is the finite sum over i < n.  Vocabulary (Model/C04Lib.v):
    [shape n p F], [E e d p] (the matrix a unique-mapping encoding stands for), [U rws d0 d1] (the half matrix
    sparse preload rows stand for), [enc_ok], [rows_ok], [mir]. *)
-From Coq Require Import ZArith Reals List Bool Arith.
+From Coq Require Import ZArith Reals Lra Lia List Bool Arith.
 From PAV Require Import Base.Res Base.NumOps Base.Sum Model.C03 Model.C04 Model.C04Lib Proofs.C04.
 Import ListNotations.
 Local Open Scope R_scope.
@@ -159,6 +159,60 @@ Proof. exact F_wt_eq_F_mapping. Qed.
 Theorem C04_F_wt_is_instance : forall c m K objs s eps,
   @F_wt ROps c m K objs s eps = F_wt_gen c (@native ROps m s) K (unmasked m) objs s eps.
 Proof. exact F_wt_is_gen. Qed.
+
+(* ------------------------------------------------------------------ non-vacuity of the hypothesis sets *)
+(* hypotheses of C04_curvature_is_BT_Ninv_B: a 2x2 signed matrix, two different noise values, one unregularized parameter *)
+Example ex_curv_hyps :
+  let B : @mat ROps := [[1; -2]; [3; 4]] in let s := [1; 2] in let idx := [1%nat] in
+  (forall i, (i < length B)%nat -> nth i s 0 <> 0) /\ Forall (fun i => (i < ncols B)%nat) idx /\ NoDup idx.
+Proof.
+  cbn. split; [|split].
+  - intros [|[|i]] H; cbn; try lra; lia.
+  - repeat constructor.
+  - repeat constructor. intros [].
+Qed.
+(* a square matrix with a blanked lower entry, as the w-tilde assembly produces *)
+Example ex_shape : shape 2 2 ([[1; 5]; [0; 3]] : @mat ROps).
+Proof. split; [reflexivity|]. intros [|[|a]] H; cbn; auto; lia. Qed.
+(* a sparse encoding with a filler entry and preload rows with a negative value *)
+Definition ex_e : @enc ROps := @Build_enc ROps [[0%Z; 1%Z]; [1%Z; (-1)%Z]] [[1/2; 1/2]; [1; 0]] [2%nat; 1%nat].
+Example ex_enc_ok : enc_ok ex_e 2 /\ rows_ok [[(0%nat, 1); (1%nat, -2)]; [(1%nat, 1/2)]] 2.
+Proof.
+  split.
+  - intros [|[|d]] pw H; cbn in H.
+    + destruct H as [<-|[<-|[]]]; cbn; lia.
+    + destruct H as [<-|[]]; cbn; lia.
+    + destruct d; cbn in H; contradiction.
+  - intros [|[|d]] iw H; cbn in H.
+    + destruct H as [<-|[<-|[]]]; cbn; lia.
+    + destruct H as [<-|[]]; cbn; lia.
+    + destruct d; cbn in H; contradiction.
+Qed.
+(* a one-pixel dataset: kernel [[2]], noise 1, one mapper with one source pixel; all hypotheses of the assembly theorems hold *)
+Definition ex_c : @convolver ROps := @Build_convolver ROps 1 [[(0%nat, 2)]] [] [[true]].
+Definition ex_m : @enc ROps := @Build_enc ROps [[0%Z]] [[1]] [1%nat].
+Definition ex_objs : list (@lobj ROps) := [@LMapper ROps ex_m [[1]] 1 false; @LFunc ROps [[3]] (Some [[5]]) 1 false].
+Example ex_main_hyps :
+  let nfs := [(0%Z, 0%Z)] in let s := [1] in let K : @kernel ROps := [[2]] in let noise := fun _ : px => 1 in
+  (0 < length nfs)%nat /\ frames_ok ex_c (length nfs) /\ (forall i, (i < length nfs)%nat -> nth i s 0 <> 0) /\
+  W_is_overlap ex_c s (@wt_dense ROps noise K nfs) (length nfs) /\ (forall o, In o ex_objs -> wf_obj ex_c (length nfs) o).
+Proof.
+  cbn [length]. split; [lia|]. split; [|split; [|split]].
+  - split; [reflexivity|]. intros [|[|s0]] tk H; cbn in H.
+    + destruct H as [<-|[]]. cbn. lia.
+    + contradiction.
+    + destruct s0; contradiction.
+  - intros [|i] H; cbn; [lra|lia].
+  - intros d0 d1 H0 H1. assert (d0 = 0%nat) by lia. assert (d1 = 0%nat) by lia. subst.
+    unfold Cop, wt_dense, wt_value, mget, nthT, sumT, zero, one, sq, kat, seqZ, rows, cols, getZ. cbn.
+    unfold Rltb. destruct (Rlt_dec 0 1) as [_|N]; [|exfalso; lra]. cbn. unfold hits. cbn. change (Pos.to_nat 1) with 1%nat. cbn. field.
+  - intros o [<-|[<-|[]]].
+    + split; [cbn; lia|]. split; [apply (shape_convolve_matrix ex_c [[1]])|].
+      split; [|split; [|repeat split]].
+      * intros [|d] pw H; cbn in H; [destruct H as [<-|[]]; cbn; lia | destruct d; contradiction].
+      * intros d p Hd Hp. assert (d = 0%nat) by lia. assert (p = 0%nat) by lia. subst. unfold E, hits. cbn. lra.
+    + split; [cbn; lia|]. split; [|exact I]. cbn. split; [reflexivity|]. intros [|a] H; [reflexivity|lia].
+Qed.
 
 Print Assumptions C04_data_vector_is_BT_Ninv_d.
 Print Assumptions C04_curvature_is_BT_Ninv_B.
